@@ -374,18 +374,18 @@ impl Wake for Flag {
     }
 }
 
-fn custom_which(_: &gherkin::Feature, _: Option<&gherkin::Rule>, s: &gherkin::Scenario) -> ScenarioType {
+pub fn custom_which(_: &gherkin::Feature, _: Option<&gherkin::Rule>, s: &gherkin::Scenario) -> ScenarioType {
     if with_lab(|l| l.custom_serial.contains(&s.name)) { ScenarioType::Serial } else { ScenarioType::Concurrent }
 }
 
-fn before_hook<'a>(f: &'a gherkin::Feature, r: Option<&'a gherkin::Rule>, s: &'a gherkin::Scenario, w: &'a mut W) -> LocalBoxFuture<'a, ()> {
+pub fn before_hook<'a>(f: &'a gherkin::Feature, r: Option<&'a gherkin::Rule>, s: &'a gherkin::Scenario, w: &'a mut W) -> LocalBoxFuture<'a, ()> {
     let args = format!("{}/{}/{}", f.name, r.map_or("-", |r| r.name.as_str()), s.name);
     let key = format!("before:{}", s.name);
     eager_check(&key, Some(w), None, Some(args.clone()));
     callback(key, Some(w), None, Some(args)).boxed_local()
 }
 
-fn after_hook<'a>(
+pub fn after_hook<'a>(
     f: &'a gherkin::Feature,
     r: Option<&'a gherkin::Rule>,
     s: &'a gherkin::Scenario,
@@ -509,11 +509,21 @@ pub fn builder_ops(case: &RCase, facade: bool) -> Vec<Op> {
     ops
 }
 
+/// A limit of 64 that cannot bind (fewer scenarios than that) is, in a quarter of the cases,
+/// written as an astronomically large one instead - "no limit in practice", as a user passing
+/// `usize::MAX` means it. The behaviour the oracles expect is the same.
+pub fn written_limit(case: &RCase, v: Option<usize>) -> Option<usize> {
+    match v {
+        Some(64) if case.scenarios.len() < 60 && case_hash(case) % 4 == 1 => Some(usize::MAX / 2 + case.scenarios.len()),
+        other => other,
+    }
+}
+
 macro_rules! apply_op {
     ($r:expr, $case:expr, $op:expr, $cli:expr) => {
         match $op {
             Op::Steps => $r.steps(collection()),
-            Op::MaxConc => $r.max_concurrent_scenarios($case.conc_builder),
+            Op::MaxConc => $r.max_concurrent_scenarios(written_limit($case, $case.conc_builder)),
             Op::FailFast => $r.fail_fast(),
             Op::Retries => $r.retries($case.retry_builder.retry),
             Op::RetryAfter => $r.retry_after($case.retry_builder.after),
@@ -591,7 +601,7 @@ pub fn build_facade(case: &RCase, parser: LabParser, queue: QW) -> Facade {
 
 pub fn build_cli(case: &RCase) -> runner::basic::Cli {
     let mut cli = runner::basic::Cli::default();
-    cli.concurrency = case.conc_cli;
+    cli.concurrency = written_limit(case, case.conc_cli);
     cli.fail_fast = case.fail_fast_cli;
     cli.retry = case.retry_cli.retry;
     cli.retry_after = case.retry_cli.after;
@@ -601,7 +611,7 @@ pub fn build_cli(case: &RCase) -> runner::basic::Cli {
     if case.items.len() % 2 == 0 {
         use clap::Parser as _;
         let mut argv: Vec<String> = vec!["vlab".into()];
-        if let Some(c) = case.conc_cli {
+        if let Some(c) = written_limit(case, case.conc_cli) {
             argv.extend(["--concurrency".into(), c.to_string()]);
         }
         if case.fail_fast_cli {
@@ -772,6 +782,10 @@ pub fn run_with(case: &RCase, sched: &mut Schedule<'_>, poll: &mut dyn FnMut(&mu
                     idle_polls = 0;
                     wait_started = None;
                     let seq = with_lab(Lab::tick);
+                    // Every other event is looked at through a `Clone` of what the stream delivered:
+                    // that is what `writer::Tee` hands to its left writer, and what any consumer
+                    // storing events keeps.
+                    let e = if events.len() % 2 == 1 { e.clone() } else { e };
                     let d = decode(&e, events.len(), seq, round);
                     if let Some((s, retries, ev)) = d.sc() {
                         match ev {
